@@ -191,6 +191,13 @@ def _set_integer_constraints_from_physical_type(expression, physical_type, type_
         expression.type.integer.minimum_value = "-infinity"
         expression.type.integer.maximum_value = "infinity"
         return
+    if type_size > 4096:
+        # No integer type is anywhere near this wide (the field is rejected by
+        # its static_requirements in a later pass); do not try to compute and
+        # print 2 ** type_size, which can take arbitrarily long.
+        expression.type.integer.minimum_value = "-infinity"
+        expression.type.integer.maximum_value = "infinity"
+        return
     if type_size < 1:
         # A zero-width integer is rejected by the type's static_requirements in a
         # later pass; until then, give it the consistent constant range [0, 0]
